@@ -212,12 +212,23 @@ def gen_conc_case(rng, mode=None):
         f0["post"][0][0].append(["await", g.next_pt]); g.next_pt += 1
     ntasks = rng.choice([2, 2, 3])
     ops = []
+    # threads only (a constructor is no coroutine): one caller re-runs the constructor of a shared object and waits in
+    # there while the others call its methods
+    reinit = None
+    if mode == "threads" and prog["objs"] and rng.random() < 0.5:
+        reinit = rng.randrange(len(prog["objs"]))
+        init = prog["classes"][prog["objs"][reinit]]["init"]
+        init[0].append(["await", g.next_pt]); g.next_pt += 1
     warm = rng.random() < 0.7
     inherit = []
     for i in range(ntasks):
         h = rng.choice(["copy", "copy", "fresh"])
         inherit.append(h)
-        if meths and rng.random() < 0.6:
+        if reinit is not None and i == 0:
+            target = ["init", reinit]
+        elif reinit is not None and rng.random() < 0.7:
+            target = rng.choice([t for t in meths if t[1] == reinit] or meths)
+        elif meths and rng.random() < 0.6:
             target = rng.choice(meths)            # several tasks on the methods of the same few objects
         else:
             target = ["fn", rng.randrange(nf) if rng.random() < 0.3 else 0]
